@@ -54,6 +54,7 @@ class CisLink:
     cig_id: int
     acl_connection: Connection | None = None
     data_paths: set[int] = dataclasses.field(default_factory=set)
+    established: bool = False
 
 
 # -----------------------------------------------------------------------------
@@ -931,10 +932,13 @@ class Controller:
             )
             if cis_link.cis_id == cis_id and cis_link.cig_id == cig_id
         )
+        cis_link.established = True
+        self.send_le_cis_established_event(cis_link, hci.HCI_ErrorCode.SUCCESS)
 
+    def send_le_cis_established_event(self, cis_link: CisLink, status: int) -> None:
         self.send_hci_packet(
             hci.HCI_LE_CIS_Established_Event(
-                status=hci.HCI_ErrorCode.SUCCESS,
+                status=status,
                 connection_handle=cis_link.handle,
                 # CIS parameters are ignored.
                 cig_sync_delay=0,
@@ -981,6 +985,7 @@ class Controller:
             cis_link.acl_connection = None
         else:
             return
+        cis_link.established = False
 
         self.send_hci_packet(
             hci.HCI_Disconnection_Complete_Event(
@@ -1357,12 +1362,21 @@ class Controller:
         See Bluetooth spec Vol 4, Part E - 7.1.6 Disconnect Command
         '''
         handle = command.connection_handle
+        cis_link = self.central_cis_links.get(handle) or self.peripheral_cis_links.get(
+            handle
+        )
+        if cis_link and not cis_link.established:
+            # Nothing to disconnect: no Disconnection Complete will follow
+            self._send_hci_command_status(
+                hci.HCI_ErrorCode.COMMAND_DISALLOWED_ERROR, command.op_code
+            )
+            return None
+
         if not (
             self.find_classic_connection_by_handle(handle)
             or self.find_le_connection_by_handle(handle)
             or self.find_classic_sco_link_by_handle(handle)
-            or self.central_cis_links.get(handle)
-            or self.peripheral_cis_links.get(handle)
+            or cis_link
         ):
             # Nothing to disconnect: no Disconnection Complete will follow
             self._send_hci_command_status(
